@@ -18,6 +18,23 @@ def model_check(c, w, kw, pairs, invs):
     c.add_model(r, "MCGuts W=%d KW=%d pairs=%s invariants %s (exhaustive over all states)" % (w, kw, pairs, ",".join(invs)))
 
 
+def apalache_counter_law(c):
+    """refill4 = 4 x refill counter law at the REAL 32-bit word size for every value of the four row-3 words (Apalache, one SMT query)."""
+    import subprocess
+    import time
+    t0 = time.time()
+    out_dir = os.path.join(c.workdir(), "apalache-guts")
+    p = subprocess.run(["timeout", "600", "apalache-mc", "check", "--init=Init", "--inv=Inv", "--length=0", "--out-dir=" + out_dir, "GutsCF.tla"],
+                       cwd=os.path.join(vlib.SPEC, "apalache"), stdout=subprocess.PIPE, stderr=subprocess.STDOUT, text=True)
+    import shutil
+    shutil.rmtree(out_dir, ignore_errors=True)
+    if "The outcome is: Error" in p.stdout:
+        raise vlib.ToolError("Apalache refutes the refill4 counter law of GutsCF.tla (model bug):\n" + vlib.tail(p.stdout, 15))
+    ok = "EXITCODE: OK" in p.stdout and "The outcome is: NoError" in p.stdout
+    c.cov["apalache_counter_law"] = {"result": "discharged" if ok else "not discharged (rc=%s)" % p.returncode, "wall_s": round(time.time() - t0, 1),
+                                     "meaning": "for all 2^128 values of the row-3 words at the real word size, d0123 / add_pos(.., 4) equal four wrapping 64-bit increments; the carry never reaches the stream-id words"}
+
+
 def _canary(ep):
     for j, e in enumerate(ep):
         if e["ev"] in ("refill", "refill4") and e["res"] == "ok":
